@@ -177,6 +177,7 @@ class LeanResult:
         self.axioms: dict[str, list[str]] = {}
         self.log = ""
         self.gen_changed: list[str] = []
+        self.leanchecker = "not run (quick tier)"
 
 
 def run_translators(props=None) -> tuple[list[str], list[str]]:
@@ -203,7 +204,7 @@ def lake(args, timeout=3600):
     return sh(["lake"] + args, cwd=LEAN_DIR, timeout=timeout, env=env)
 
 
-def lean_check(prop: str, build_driver=True) -> LeanResult:
+def lean_check(prop: str, build_driver=True, thorough=False) -> LeanResult:
     """Translator -> lake build Props.<prop> (+driver) -> forbidden-token grep -> axiom audit."""
     res = LeanResult()
     from . import registry
@@ -254,6 +255,13 @@ def lean_check(prop: str, build_driver=True) -> LeanResult:
                     res.problems.append(f"{t} uses axioms {res.axioms[t]}")
                 else:
                     res.discharged += 1
+    if built and thorough:
+        # independent re-check of the compiled .olean files (thorough tier only)
+        rc, out = lake(["env", "leanchecker", f"DulwichModel.Props.{prop}"], timeout=3600)
+        res.log += out
+        res.leanchecker = "ok" if rc == 0 else f"failed ({rc})"
+        if rc != 0:
+            res.problems.append("leanchecker rejected the compiled Props module: " + out[-300:])
     res.ok = not res.problems
     return res
 
@@ -554,6 +562,7 @@ class Ctx:
             "axioms_used": sorted({a for v in (lean.axioms.values() if lean else []) for a in v}),
             "gen_files_changed_this_run": lean.gen_changed if lean else [],
             "proof_problems": lean.problems if lean else [],
+            "leanchecker": lean.leanchecker if lean else "not run",
             "evaluations": self.evaluations,
             "distinct_nontrivial": len(self.distinct),
             "rule": "correspondence + direct-oracle cases generated from random.Random(VERIF_SEED) and exhaustive "
